@@ -72,4 +72,24 @@ def step (op : Op) (s : St) : Ev → St
 
 def run (op : Op) (srvs : List Srv) (evs : List Ev) : St := evs.foldl (step op) (init srvs)
 
+/-- the same workers with the two halves of their program SWAPPED – signal first, record afterwards (what
+    "report completion before the clean-up" amounts to).  Only used to show that the order matters
+    (`Props.C17.signal_first_breaks_broadcast`). -/
+def stepSignalFirst (op : Op) (s : St) : Ev → St
+  | .signal i =>
+    match s.ws[i]? with
+    | some ⟨sv, .calling⟩ => { s with ws := s.ws.set i ⟨sv, .finished⟩, queue := s.queue ++ [sv.ok] }
+    | _ => s
+  | .finish i =>
+    match s.ws[i]? with
+    | some ⟨sv, .finished⟩ =>
+      { s with ws := s.ws.set i ⟨sv, .signalled⟩,
+               errs := if sv.ok then s.errs else s.errs + 1,
+               reply := if sv.ok then (match s.reply with | none => some sv.reply | some r => some r) else s.reply,
+               receipts := s.receipts ++ [⟨sv.addr, sv.reply, sv.ok⟩] }
+    | _ => s
+  | .recv => step op s .recv
+
+def runSignalFirst (op : Op) (srvs : List Srv) (evs : List Ev) : St := evs.foldl (stepSignalFirst op) (init srvs)
+
 end Rpcx.FanC
